@@ -96,8 +96,11 @@ func (x *c03World) Enabled() []bfs.Op {
 	ops = append(ops, bfs.Op{Name: "ok", Arg: "1/none", Arg2: "1"}, bfs.Op{Name: "ok", Arg: "2/short-empty", Arg2: "315360000"})
 	ops = append(ops, bfs.Op{Name: "fail-auth"}, bfs.Op{Name: "fail-generate-agent"}, bfs.Op{Name: "fail-generate-noslot"}, bfs.Op{Name: "fail-ca"},
 		bfs.Op{Name: "fail-agent-list"}, bfs.Op{Name: "fail-agent-certadd"})
+	if len(x.labelled()) > 0 {
+		ops = append(ops, bfs.Op{Name: "fail-agent-remove"}) // the agent refuses the removal of an older generation
+	}
 	if x.thorough {
-		ops = append(ops, bfs.Op{Name: "fail-agent-remove"}, bfs.Op{Name: "fail-ca-panic"}, bfs.Op{Name: "ok", Arg: "3/long", Arg2: "1"})
+		ops = append(ops, bfs.Op{Name: "fail-agent-remove-close"}, bfs.Op{Name: "fail-ca-panic"}, bfs.Op{Name: "ok", Arg: "3/long", Arg2: "1"})
 	}
 	return ops
 }
@@ -168,6 +171,8 @@ func (x *c03World) Apply(op bfs.Op) (fs []bfs.Finding) {
 	case "fail-agent-list":
 		e.ua.Plan[base+2] = uagent.FaultFailure
 	case "fail-agent-remove":
+		e.ua.Plan[base+3] = uagent.FaultFailure
+	case "fail-agent-remove-close":
 		e.ua.Plan[base+3] = uagent.FaultClose
 	case "fail-agent-certadd":
 		e.ua.Plan[base+3+nOld] = uagent.FaultFailure
@@ -230,11 +235,12 @@ func (x *c03World) Apply(op bfs.Op) (fs []bfs.Finding) {
 			add("lifetime-shorter-than-validity", fmt.Sprintf("the RA added an identity (comment %q) with lifetime %d s, shorter than the certificate validity %d s", a.Comment, a.Lifetime, validity))
 		}
 	}
-	okExpected := op.Name == "ok"
-	if okExpected != (err == nil) {
+	if op.Name == "ok" && err != nil {
 		add("harness:unexpected-outcome:"+op.Name, fmt.Sprintf("scripted %s but the run returned %v", op.Name, err))
 		return
 	}
+	// a scripted fault normally fails the run (C04 decides the error kind); if the run nevertheless reports success,
+	// the success post-conditions below apply in full (usable certificates, at most one generation)
 	if err == nil {
 		x.c.Nontrivial(x.Key() + op.Arg)
 		issued := e.ca.Issued[len(e.ca.Issued)-1]
